@@ -50,10 +50,11 @@ def main():
     for pid in ALL:
         if pid not in claimed:
             na.append({'property_id': pid, 'reason': na_reasons.get(pid, 'not yet covered by the Coq development in this tree (no model/theorem/correspondence committed); see DESIGN.md section 7 for the planned design')})
-    hooks_commits = []
-    hc = os.path.join(V, 'HOOK_COMMITS.txt')
-    if os.path.exists(hc):
-        hooks_commits = [l.split()[0] for l in open(hc) if l.strip() and not l.startswith('#')]
+    try:
+        hooks_commits = subprocess.run(['git', '-C', '/repo', 'log', '--reverse', '--format=%h', '--grep=^verif hook:'],
+                                       stdout=subprocess.PIPE, text=True).stdout.split()
+    except Exception:
+        hooks_commits = []
     man = {
         'version': 1,
         'setup_cmd': './check --setup',
